@@ -412,6 +412,17 @@ func c15CheckTx(tx *Transaction, in []byte, label string) {
 	authOnly := &SerializeTx{Auth: tx.Auth.Bytes()}
 	whole := append(c15Copy(unsigned), authOnly.MarshalCanoto()...)
 	c15Same(whole, in, label+"-not-unsigned-plus-auth")
+	// a second signer signing the same body (e.g. another sponsor) yields its own transaction and leaves the accepted
+	// one — its bytes, hence its ID — untouched
+	if _, isHarnessAuth := tx.Auth.(c15Auth); isHarnessAuth {
+		other, err := tx.TransactionData.Sign(c15Factory{auth: c15Auth{c15AuthType, 0x5a}, want: unsigned})
+		if err != nil {
+			verifFail(label + "-resign")
+		}
+		c15Same(tx.Bytes(), in, label+"-bytes-changed-by-signing-the-body-again")
+		c15SameID(tx.GetID(), utils.ToID(in), label+"-id-changed-by-signing-the-body-again")
+		c15Same(other.UnsignedBytes(), unsigned, label+"-resigned-body-differs")
+	}
 }
 
 // VerifC15TxBytes: UnmarshalTx on an arbitrary buffer.
